@@ -1,0 +1,14 @@
+//go:build verif
+
+package s2
+
+// VerifHook, when non-nil, is called at every verifPoint with the name of the
+// point. It must be installed before any goroutine that can reach a
+// verifPoint is started and not changed while such goroutines run.
+var VerifHook func(name string)
+
+func verifPoint(name string) {
+	if h := VerifHook; h != nil {
+		h(name)
+	}
+}
